@@ -179,27 +179,28 @@ Proof.
 Qed.
 
 (** ---- MP_REACH_NLRI (1|2, 128) ---- *)
-Definition vpn_nh (v6 : bool) (asn an ip : N) : bytes :=
-  [0; 0] ++ be 2 asn ++ be 4 an ++ be (abytes v6) ip.
+Definition vpn_nh (nh6 : bool) (asn an ip : N) : bytes :=
+  [0; 0] ++ be 2 asn ++ be 4 an ++ be (abytes nh6) ip.
 
-Theorem reachvpn_behaviour v6 asn an ip rs :
-  asn <= 65535 -> an < 2 ^ 32 -> ip < 2 ^ abits v6 ->
+(** routes of family [v6] with a next hop of version [nh6] (both combinations of each) *)
+Theorem reachvpn_behaviour_x v6 nh6 asn an ip rs :
+  asn <= 65535 -> an < 2 ^ 32 -> ip < 2 ^ abits nh6 ->
   Forall (wf_vroute v6) rs -> Forall one_label rs ->
   forall nlri, construct_vpn v6 false rs = Ok nlri -> len nlri <= 65000 ->
-  exists v, reachvpn_construct v6 asn an ip rs =
+  exists v, reachvpn_construct_x v6 nh6 asn an ip rs =
               Ok ([c_ATTR_MpReachNLRI_FLAG; c_ATTR_MpReachNLRI_ID] ++ be 2 (len v) ++ v) /\
             reachvpn_parse v6 v =
-              Ok (PRd (RdAs asn an), vaddr v6 ip, map (expect_proute v6 false) rs).
+              Ok (PRd (RdAs asn an), vaddr nh6 ip, map (expect_proute v6 false) rs).
 Proof.
   intros Hasn Han Hip Hw Hlab nlri Hc Hlen.
   destruct (vpn_nlri_roundtrip v6 false rs Hw (fun _ => Hlab)) as (b & Hc' & _ & Hp).
   rewrite Hc in Hc'. injection Hc' as <-.
-  set (nh := vpn_nh v6 asn an ip).
-  assert (Hnhl : length nh = (8 + abytes v6)%nat).
+  set (nh := vpn_nh nh6 asn an ip).
+  assert (Hnhl : length nh = (8 + abytes nh6)%nat).
   { unfold nh, vpn_nh. rewrite !app_length, !length_be. reflexivity. }
   set (v := be 2 (vpn_afi v6) ++ [SAFI_LAB_VPNUNICAST] ++ [len nh] ++ nh ++ [0] ++ nlri).
   exists v. split.
-  - unfold reachvpn_construct, construct_vpn_nexthop.
+  - unfold reachvpn_construct_x, construct_vpn_nexthop_x.
     destruct ((65535 <? asn) || (2 ^ 32 <=? an)) eqn:E; [exfalso; lia|].
     cbn [bind]. rewrite Hc. cbn [bind].
     unfold reach_attr, reach_value.
@@ -208,13 +209,13 @@ Proof.
             else Ok (be 2 (vpn_afi v6) ++ [SAFI_LAB_VPNUNICAST] ++ [len x] ++ x ++ [0] ++ nlri))
            (attr c_ATTR_MpReachNLRI_FLAG c_ATTR_MpReachNLRI_ID) =
       Ok ([c_ATTR_MpReachNLRI_FLAG; c_ATTR_MpReachNLRI_ID] ++ be 2 (len v) ++ v));
-    [|apply G; unfold nh, vpn_nh; destruct v6; reflexivity].
+    [|apply G; unfold nh, vpn_nh; destruct nh6; reflexivity].
     intros x ->.
-    destruct (255 <? len nh) eqn:E2; [unfold len in E2; rewrite Hnhl in E2; destruct v6; discriminate|].
+    destruct (255 <? len nh) eqn:E2; [unfold len in E2; rewrite Hnhl in E2; destruct nh6; discriminate|].
     cbn [bind]. fold v. unfold attr.
     destruct (65535 <? len v) eqn:E3; [|reflexivity].
     exfalso. apply N.ltb_lt in E3. unfold v in E3. rewrite !len_app, len_be in E3.
-    unfold len in *. rewrite Hnhl in E3. cbn [length] in E3. destruct v6; cbn [abytes] in E3; lia.
+    unfold len in *. rewrite Hnhl in E3. cbn [length] in E3. destruct nh6; cbn [abytes] in E3; lia.
   - unfold reachvpn_parse, v.
     assert (Hbe : be 2 (vpn_afi v6) = [0; vpn_afi v6]) by (destruct v6; reflexivity).
     rewrite Hbe. cbn [app reach_split bind].
@@ -227,8 +228,8 @@ Proof.
       unfold drop. apply skipn_app_len. rewrite app_length. unfold len. cbn [length]. lia. }
     rewrite Ht, Hd.
     unfold nh, vpn_nh.
-    replace ([0; 0] ++ be 2 asn ++ be 4 an ++ be (abytes v6) ip)
-      with (([0; 0] ++ be 2 asn ++ be 4 an) ++ be (abytes v6) ip) by (rewrite <- !app_assoc; reflexivity).
+    replace ([0; 0] ++ be 2 asn ++ be 4 an ++ be (abytes nh6) ip)
+      with (([0; 0] ++ be 2 asn ++ be 4 an) ++ be (abytes nh6) ip) by (rewrite <- !app_assoc; reflexivity).
     unfold take, drop.
     rewrite firstn_app_len, skipn_app_len by (rewrite !app_length, !length_be; reflexivity).
     change [0; 0] with (be 2 c_BGP_ROUTE_DISTINGUISHER_TYPE_0).
@@ -237,14 +238,25 @@ Proof.
     unfold take, drop. rewrite firstn_app_len, skipn_app_len by apply length_be.
     rewrite !unbe_be by (try exact Han; change (256 ^ N.of_nat 2) with 65536; lia).
     cbn [bind].
-    assert (HA : addr_of_bytes (be (abytes v6) ip) = Ok (vaddr v6 ip)).
-    { unfold addr_of_bytes. rewrite int_of_hex_nonempty by (rewrite length_be; destruct v6; cbn; lia).
-      cbn [bind]. rewrite unbe_be by (destruct v6; exact Hip).
-      destruct v6; cbn [vaddr abits] in *.
+    assert (HA : addr_of_bytes (be (abytes nh6) ip) = Ok (vaddr nh6 ip)).
+    { unfold addr_of_bytes. rewrite int_of_hex_nonempty by (rewrite length_be; destruct nh6; cbn; lia).
+      cbn [bind]. rewrite unbe_be by (destruct nh6; exact Hip).
+      destruct nh6; cbn [vaddr abits] in *.
       - apply of_int_render; exact Hip.
       - unfold of_int. destruct (ip <? 2 ^ 32) eqn:E; [reflexivity | apply N.ltb_ge in E; lia]. }
     rewrite HA. cbn [bind]. unfold parse_vpn_all. rewrite Hp by lia. reflexivity.
 Qed.
+
+(** the next hop of the routes' own family *)
+Theorem reachvpn_behaviour v6 asn an ip rs :
+  asn <= 65535 -> an < 2 ^ 32 -> ip < 2 ^ abits v6 ->
+  Forall (wf_vroute v6) rs -> Forall one_label rs ->
+  forall nlri, construct_vpn v6 false rs = Ok nlri -> len nlri <= 65000 ->
+  exists v, reachvpn_construct v6 asn an ip rs =
+              Ok ([c_ATTR_MpReachNLRI_FLAG; c_ATTR_MpReachNLRI_ID] ++ be 2 (len v) ++ v) /\
+            reachvpn_parse v6 v =
+              Ok (PRd (RdAs asn an), vaddr v6 ip, map (expect_proute v6 false) rs).
+Proof. exact (reachvpn_behaviour_x v6 v6 asn an ip rs). Qed.
 
 (** ---- MP_UNREACH_NLRI (1|2, 128): the labels of the input are ignored, the decoder reports the
     withdraw label ---- *)
@@ -285,6 +297,24 @@ Proof. intros Hw Hl. destruct (vpn_nlri_roundtrip v6 withdraw rs Hw Hl) as (b & 
 Lemma vaddr_high v6 a : (v6 = true -> 2 ^ 32 <= a) -> vaddr v6 a = if v6 then V6 a else V4 a.
 Proof. destruct v6; cbn [vaddr]; intros H; [apply render_high; auto | reflexivity]. Qed.
 
+Theorem reachvpn_roundtrip_x : forall v6 nh6 asn an ip rs,
+  asn <= 65535 -> an < 2 ^ 32 -> ip < 2 ^ abits nh6 -> (nh6 = true -> 2 ^ 32 <= ip) ->
+  Forall (wf_vroute v6) rs -> Forall one_label rs ->
+  Forall (fun r => v6 = true -> 2 ^ 32 <= v_addr r) rs ->
+  forall nlri, construct_vpn v6 false rs = Ok nlri -> len nlri <= 65000 ->
+  exists v, reachvpn_construct_x v6 nh6 asn an ip rs =
+              Ok ([c_ATTR_MpReachNLRI_FLAG; c_ATTR_MpReachNLRI_ID] ++ be 2 (len v) ++ v) /\
+            reachvpn_parse v6 v =
+              Ok (PRd (RdAs asn an), (if nh6 then V6 ip else V4 ip),
+                  map (fun r => (v_labels r, PRd (v_rd r), (if v6 then V6 (v_addr r) else V4 (v_addr r)), v_len r)) rs).
+Proof.
+  intros v6 nh6 asn an ip rs Ha Hn Hip Hhi Hw Hl Hh nlri Hc Hlen.
+  destruct (reachvpn_behaviour_x v6 nh6 asn an ip rs Ha Hn Hip Hw Hl nlri Hc Hlen) as (v & H1 & H2).
+  exists v. split; [exact H1|]. rewrite H2. rewrite vaddr_high by exact Hhi.
+  do 2 f_equal. apply map_ext_in. intros r Hr. unfold expect_proute.
+  rewrite vaddr_high; [reflexivity|]. rewrite Forall_forall in Hh. exact (Hh r Hr).
+Qed.
+
 Theorem reachvpn_roundtrip : forall v6 asn an ip rs,
   asn <= 65535 -> an < 2 ^ 32 -> ip < 2 ^ abits v6 -> (v6 = true -> 2 ^ 32 <= ip) ->
   Forall (wf_vroute v6) rs -> Forall one_label rs ->
@@ -295,13 +325,8 @@ Theorem reachvpn_roundtrip : forall v6 asn an ip rs,
             reachvpn_parse v6 v =
               Ok (PRd (RdAs asn an), (if v6 then V6 ip else V4 ip),
                   map (fun r => (v_labels r, PRd (v_rd r), (if v6 then V6 (v_addr r) else V4 (v_addr r)), v_len r)) rs).
-Proof.
-  intros v6 asn an ip rs Ha Hn Hip Hhi Hw Hl Hh nlri Hc Hlen.
-  destruct (reachvpn_behaviour v6 asn an ip rs Ha Hn Hip Hw Hl nlri Hc Hlen) as (v & H1 & H2).
-  exists v. split; [exact H1|]. rewrite H2. rewrite vaddr_high by exact Hhi.
-  do 2 f_equal. apply map_ext_in. intros r Hr. unfold expect_proute.
-  rewrite vaddr_high; [reflexivity|]. rewrite Forall_forall in Hh. exact (Hh r Hr).
-Qed.
+Proof. intros v6. exact (reachvpn_roundtrip_x v6 v6). Qed.
+
 
 (** defects, on concrete inputs *)
 Definition r_label0 : vroute := mk_vroute [0] (RdAs 100 1) 167772160 8.
